@@ -20,12 +20,15 @@ from vlib import Work, Infra, Evidence, log
 # --------------------------------------------------------------------------- known findings
 
 
-def match_known(prop, scn, execution):
-    """Structural matchers of the *open* entries of known_findings.json (none are open at present)."""
+def match_known(prop, scn, execution, invariant=None):
+    """Structural matchers of the *open* entries of known_findings.json: the input shape (scenario family, mode) and
+    the violated invariant identify a finding; anything else is a new violation."""
     for k in vlib.load_known().get("open", []):
         if prop not in k.get("properties", []):
             continue
         m = k.get("matcher", {})
+        if m.get("invariant") and m["invariant"] != invariant:
+            continue
         fam = m.get("family")
         if fam and not scn.get("family", "").startswith(fam):
             continue
@@ -77,16 +80,19 @@ def trace_validate(work, prop, invariants, trace_file, ev, module="ContractTrace
             i, j = vlib.cut_execution(lines, line)
             execution = [json.loads(x) for x in lines[i:j]]
             scn = execution[0].get("scn", {})
-            k = match_known(prop, scn, execution)
+            k = match_known(prop, scn, execution, res["violated"][0])
             if k is not None:
                 if k["id"] not in known_reported:
                     print("KNOWN-FINDING: property=%s %s" % (prop, k["what"]), flush=True)
                     known_reported.add(k["id"])
-                # drop every execution of this scenario and go on
+                    ev.doc.setdefault("known_findings_observed", []).append(k["id"])
+                # drop every execution of the finding's input shape (or of this scenario) and go on
+                fam = k.get("matcher", {}).get("family")
                 keep, skip = [], False
                 for x in lines:
                     if x.startswith('{"ev":"reset"'):
-                        skip = json.loads(x)["sid"] == sid
+                        r0 = json.loads(x)
+                        skip = r0["scn"].get("family", "").startswith(fam) if fam else r0["sid"] == sid
                     if not skip:
                         keep.append(x)
                 lines = keep
@@ -157,8 +163,8 @@ RESOLVER = {
     "C06": {"inv": ["C06"], "reps": (3, 6), "family": "C06", "life": True,
             "random": [("wild", 3000, 30000), ("general", 1500, 15000), ("multi", 1000, 10000), ("redef", 500, 5000),
                        ("convert", 500, 5000)]},
-    "C07": {"inv": ["C07"], "reps": (25, 100), "family": "C07", "random": [("general", 300, 3000)], "model": (200, 2000)},
-    "C08": {"inv": ["C08", "C01", "C04", "C06"], "minv": ["C08"], "reps": (3, 6), "family": "C08", "random": [("redef", 2500, 30000), ("redeffail", 800, 10000)]},
+    "C07": {"inv": ["C07", "C07h"], "minv": ["C07"], "reps": (25, 100), "family": "C07", "random": [("general", 300, 3000)], "model": (200, 2000)},
+    "C08": {"inv": ["C08", "C01", "C04", "C06"], "minv": ["C08"], "reps": (3, 6), "family": "C08", "life": True, "linv": ["C08life"], "random": [("redef", 2500, 30000), ("redeffail", 800, 10000)]},
     "C10": {"inv": ["C10", "C01", "C02", "C04", "C05", "C06"], "minv": ["C10"], "reps": (4, 8), "family": "none",
             "random": [("convcall", 3500, 35000), ("convert", 800, 8000)], "model": (600, 6000)},
     "C16": {"inv": ["C16", "C03"], "minv": ["C16"], "reps": (6, 12), "family": "C16", "random": [("wild", 800, 8000), ("general", 500, 5000)], "model": (300, 3000)},
@@ -318,7 +324,7 @@ def life_stage(w, prop, invariants, tier, seed, ev):
 
 def run_life(prop, tier, seed, keep=False):
     ev = Evidence(prop, tier, seed)
-    inv = {"C09": ["C09", "C09twin", "C06", "C01"], "C11": ["C11", "C04", "C01", "C06"]}[prop]
+    inv = {"C09": ["C09", "C09twin", "C06", "C01", "C08life"], "C11": ["C11", "C04", "C01", "C06"]}[prop]
     with Work(keep) as w:
         w.build()
         rc = life_stage(w, prop, inv, tier, seed, ev)
@@ -459,7 +465,7 @@ def run_resolver(prop, tier, seed, keep=False):
         if spec.get("life") and rc == 0:
             # the same invariants over histories of calls on shared objects (memoized converters, reused functions)
             # (plus C01 and C11: a memoized failure replayed without its error shows as an invented argument / a second execution)
-            rc = life_stage(w, prop, spec["inv"] + [i for i in ("C01", "C11") if i not in spec["inv"]], tier, seed, ev)
+            rc = life_stage(w, prop, spec["inv"] + [i for i in ["C01", "C11"] + spec.get("linv", []) if i not in spec["inv"]], tier, seed, ev)
         if mres["violated"] and rc == 0:
             # a design-level counterexample that the real code did not exhibit: no verdict
             ev.cov["unreproduced_model_cex"] = mres["violated"]
